@@ -94,6 +94,14 @@ if exe:
         env2 = {'LBZIP2_VERIF_CHECK': '1'}
         if rng.random() < 0.6:
             env2['LBZIP2_VERIF_PERTURB'] = str(rng.randrange(1, 10**6))
+        # input-buffer edges inside the compressed stream (the header parser
+        # and the block reader are resumable at every word)
+        if len(r.out) <= 300000 and rng.random() < 0.5:
+            env2['LBZIP2_VERIF_IN_GRANUL'] = str(rng.choice(
+                [4, 8, 12, 16, 20, 36, 100, 1000, 4096]))
+        if len(data) <= 300000 and rng.random() < 0.2:
+            env2['LBZIP2_VERIF_OUT_GRANUL'] = str(rng.choice(
+                [1, 2, 3, 4, 5, 255, 256, 4096]))
         djobs.append(dict(exe=exe, args=['-d', '-n%d' % n2], data=r.out,
                           env=env2, timeout=300))
         dmeta.append((m, r.out, n2, env2))
